@@ -135,3 +135,50 @@ C04_EXTRA = [
 
 def all_units():
     return c04_units() + C04_EXTRA
+
+
+# ------------------------------------------------------------------ native replay dispatcher (generated Rust)
+EXTRA_CTOR_REPLAY = [
+    # id, float, args [(name, ty)], call expression, post expression
+    ("binomial_new", None, [("n", "u64"), ("p", "f64")], "rd::Binomial::new(n, p)", "binomial_new_post(n, p, &r)"),
+    ("geometric_new", None, [("p", "f64")], "rd::Geometric::new(p)", "geometric_new_post(p, &r)"),
+    ("pert_with_mode", "f64", [("min", "f64"), ("max", "f64"), ("shape", "f64"), ("mode", "f64")], "rd::Pert::<f64>::new(min, max).with_shape(shape).with_mode(mode)", "pert_with_mode_post(min, max, shape, mode, &r)"),
+    ("pert_with_mode", "f32", [("min", "f32"), ("max", "f32"), ("shape", "f32"), ("mode", "f32")], "rd::Pert::<f32>::new(min, max).with_shape(shape).with_mode(mode)", "pert_with_mode_post(min, max, shape, mode, &r)"),
+    ("hypergeometric_new", None, [("total", "u64"), ("feature", "u64"), ("sample", "u64")], "rd::Hypergeometric::new(total, feature, sample)", "hypergeometric_new_post(total, feature, sample, &r)"),
+]
+
+
+def gen_replay_ctor():
+    L = ["// GENERATED by kx/kunits.py (gen_replay_ctor): native evaluation of the constructor contracts on the real crate.",
+         "use crate::rd;", "use crate::spec;", "",
+         "pub fn replay_ctor(id: &str, fl: &str, a: &[u64]) -> Option<(bool, String)> {", "    match (id, fl) {"]
+
+    def arm(cid, fl, args, call, post):
+        L.append("        (\"%s\", \"%s\") => {" % (cid, fl or "-"))
+        L.append("            if a.len() < %d { return None; }" % len(args))
+        for i, (n, t) in enumerate(args):
+            if t == "f64": L.append("            let %s = f64::from_bits(a[%d]);" % (n, i))
+            elif t == "f32": L.append("            let %s = f32::from_bits(a[%d] as u32);" % (n, i))
+            else: L.append("            let %s = a[%d] as %s;" % (n, i, t))
+        L.append("            let r = std::panic::catch_unwind(|| %s);" % call)
+        L.append("            let shown = format!(\"%s with %s\", %s);" % (call.replace("{", "{{").replace("}", "}}").replace('"', "'"), ", ".join("%s={:?}" % n for n, _ in args), ", ".join(n for n, _ in args)))
+        L.append("            match r {")
+        L.append("                Err(_) => Some((false, format!(\"{} PANICKED\", shown))),")
+        L.append("                Ok(r) => { let ok = spec::%s; Some((ok, format!(\"{} = {:?}\", shown, r.as_ref().map(|_| \"Ok(..)\")))) }" % post)
+        L.append("            }")
+        L.append("        }")
+
+    for c in CTORS:
+        for fl in c.get("floats", ["f64", "f32"]):
+            args = [(n, fl if t == "F" else t) for n, t in c["args"]]
+            post = c.get("post_native", c["post"])
+            post = post.replace("F::from(Self::MAX_LAMBDA).unwrap()", "rd::Poisson::<%s>::MAX_LAMBDA as %s" % (fl, fl))
+            assert post.endswith(", r)"), post
+            post = post[:-4] + ", &r)"
+            tyargs = "::<%s>" % fl if fl else ""
+            call = "rd::%s%s::%s(%s)" % (c["ty"], tyargs, c["fn"], ", ".join(n for n, _ in args))
+            arm(c["id"], fl, args, call, post)
+    for cid, fl, args, call, post in EXTRA_CTOR_REPLAY:
+        arm(cid, fl, args, call, post)
+    L += ["        _ => None,", "    }", "}", ""]
+    return "\n".join(L)
